@@ -105,6 +105,19 @@ def present (a : ATx) (k : Key) : Bool :=
 def put (a : ATx) (k : Key) (v : Val) (ttl : Option Nat) : ATx :=
   { a with del := a.del.filter (· ≠ k), ov := a.ov.write k v ttl }
 
+/-- `incr` first copies the store's value (or 0) into the overlay, without a deadline -/
+def seed (a : ATx) (k : Key) : ATx :=
+  if (a.ov.find k).isNone ∧ k ∉ a.del
+  then { a with ov := a.ov.write k (((a.b.find k).map (·.val)).getD (.int 0)) none } else a
+
+/-- one position of `get_many`: an overlay hit wins, else the store's answer unless pending delete -/
+def getOne (a : ATx) (k : Key) : Option Val :=
+  match a.ov.find k with
+  | some e => some e.val
+  | none => if k ∈ a.del then none else (a.b.find k).map (·.val)
+
+def delete (a : ATx) (k : Key) : ATx := { a with ov := a.ov.remove k, del := k :: a.del }
+
 def getExpire (a : ATx) (k : Key) : Int :=
   if k ∈ a.del then -2
   else
@@ -121,22 +134,16 @@ def step (a : ATx) : Op → ATx × Out
     | .nx => if a.present k then (a, .bool false) else (a.put k v ttl, .bool true)
     | .xx => if a.present k then (a.put k v ttl, .bool true) else (a, .bool false)
   | .setMany kvs ttl =>
-    ({ a with del := a.del.filter (fun k => decide (k ∉ kvs.map (·.1))),
-              ov := kvs.foldl (fun t kv => t.write kv.1 kv.2 ttl) a.ov }, .unit)
+    (kvs.foldl (fun a kv => a.put kv.1 kv.2 ttl) a, .unit)
   | .get k => (a, .val (if k ∈ a.del then none else ((a.ov.find k).or (a.b.find k)).map (·.val)))
   | .getMany ks =>
-    (a, .vals (ks.map fun k =>
-      match a.ov.find k with
-      | some e => some e.val
-      | none => if k ∈ a.del then none else (a.b.find k).map (·.val)))
+    (a, .vals (ks.map a.getOne))
   | .exists_ k => (a, .bool (a.present k))
   | .incr k by_ ttl =>
-    let ov1 := if (a.ov.find k).isNone ∧ k ∉ a.del
-      then a.ov.write k (((a.b.find k).map (·.val)).getD (.int 0)) none else a.ov
-    let (ov2, o) := ov1.incr k by_ ttl
-    ({ a with ov := ov2, del := a.del.filter (· ≠ k) }, o)
-  | .delete k => ({ a with ov := a.ov.remove k, del := k :: a.del }, .bool true)
-  | .deleteMany ks => ({ a with ov := ks.foldl TtlMap.remove a.ov, del := ks ++ a.del }, .unit)
+    let a1 := a.seed k
+    ({ a1 with ov := (a1.ov.incr k by_ ttl).1, del := a1.del.filter (· ≠ k) }, (a1.ov.incr k by_ ttl).2)
+  | .delete k => (a.delete k, .bool true)
+  | .deleteMany ks => (ks.foldl delete a, .unit)
   | .expire k ttl =>
     if k ∈ a.del then (a, .unit)
     else match a.ov.find k with
